@@ -90,3 +90,76 @@ package yubiagent
 //@     invariant calls(yubiagent.write) >= old(calls(yubiagent.write)) && calls(agent.ServeAgent) >= old(calls(agent.ServeAgent))
 //@     invariant forall(i, old(calls(yubiagent.write)) <= i && i < calls(yubiagent.write), arg(yubiagent.write, i, 0) == c)
 //@     invariant forall(i, old(calls(yubiagent.read)) <= i && i < calls(yubiagent.read), arg(yubiagent.read, i, 0) == c)
+
+//@ # ---------------------------------------------------------------- C13: the client side
+//@ # the connection is used by one operation at a time: request frame, then reply frame, under connLock
+//@ protected exclusive client.agent by client.connLock
+//@ immutable client.agent, client.conn, client.connLock
+//@ ghost func cinv(c *client) bool = c.conn != nil && c.agent != nil
+//@ ghost func cfree(c *client) bool = mstate(addrof(c.connLock)) == 0
+
+//@ func (*client).call(c, req)
+//@   flag logged
+//@   requires c != nil && cinv(c) && cfree(c)
+//@   modifies mstate(addrof(c.connLock)), rpos(pl(c.conn)), hacc(pl(c.conn))
+//@   let w0 = old(calls(yubiagent.write))
+//@   let r0 = old(calls(yubiagent.read))
+//@   ensures cfree(c)
+//@   ensures [one-request-frame] calls(yubiagent.write) == w0 + 1 && pl(arg(yubiagent.write, w0, 0)) == pl(c.conn) && arg(yubiagent.write, w0, 1) == req
+//@   ensures [write-failure-surfaces] ret(yubiagent.write, w0, 0) != nil ==> (resp == nil && err == ret(yubiagent.write, w0, 0) && calls(yubiagent.read) == r0)
+//@   ensures [reply-is-the-next-frame] ret(yubiagent.write, w0, 0) == nil ==> (calls(yubiagent.read) == r0 + 1 && pl(arg(yubiagent.read, r0, 0)) == pl(c.conn) &&
+//@     resp == ret(yubiagent.read, r0, 0) && err == ret(yubiagent.read, r0, 1))
+
+//@ func (*client).Forward(c, req)
+//@   requires c != nil && cinv(c) && cfree(c)
+//@   modifies mstate(addrof(c.connLock)), rpos(pl(c.conn)), hacc(pl(c.conn))
+//@   let k0 = old(calls(client.call))
+//@   ensures cfree(c)
+//@   ensures [raw-request-raw-reply] calls(client.call) == k0 + 1 && arg(client.call, k0, 0) == c && arg(client.call, k0, 1) == req &&
+//@     resp == ret(client.call, k0, 0) && err == ret(client.call, k0, 1)
+
+//@ func (*client).AddHardCert(c, key, comment)
+//@   requires c != nil && cinv(c) && cfree(c)
+//@   modifies mstate(addrof(c.connLock)), rpos(pl(c.conn)), hacc(pl(c.conn))
+//@   let k0 = old(calls(client.call))
+//@   let m0 = old(calls(ssh.Marshal))
+//@   ensures cfree(c)
+//@   ensures [nil-key-is-refused-locally] key == nil ==> (result != nil && calls(client.call) == k0)
+//@   ensures [one-request-with-blob-and-comment] key != nil ==> (calls(client.call) == k0 + 1 && arg(client.call, k0, 0) == c &&
+//@     calls(ssh.Marshal) == m0 + 1 && arg(client.call, k0, 1) == ret(ssh.Marshal, m0, 0) && typeof(arg(ssh.Marshal, m0, 0)) == agentAddHardCertReq)
+//@   ensures [transport-failure-is-an-error] (key != nil && ret(client.call, k0, 1) != nil) ==> result == ret(client.call, k0, 1)
+//@   ensures [success-only-on-the-success-reply] (key != nil && ret(client.call, k0, 1) == nil) ==> (result == nil <==> str(ret(client.call, k0, 0)) == "SUCCESS")
+
+//@ func (*client).Wait(c, agentMsg)
+//@   requires c != nil && cinv(c) && cfree(c)
+//@   modifies mstate(addrof(c.connLock)), rpos(pl(c.conn)), hacc(pl(c.conn))
+//@   let k0 = old(calls(client.call))
+//@   ensures cfree(c)
+//@   ensures [wait-request-carries-the-code] calls(client.call) == k0 + 1 && arg(client.call, k0, 0) == c && len(arg(client.call, k0, 1)) == 2 &&
+//@     argc(client.call, k0, 1)[off(arg(client.call, k0, 1))] == 35 && argc(client.call, k0, 1)[off(arg(client.call, k0, 1)) + 1] == agentMsg
+//@   ensures [transport-failure-is-an-error] ret(client.call, k0, 1) != nil ==> result == ret(client.call, k0, 1)
+//@   ensures [success-only-on-the-success-reply] ret(client.call, k0, 1) == nil ==> (result == nil <==> str(ret(client.call, k0, 0)) == "SUCCESS")
+
+//@ func (*client).ListSlots(c)
+//@   requires c != nil && cinv(c) && cfree(c)
+//@   modifies all
+//@   let k0 = old(calls(client.call))
+//@   ensures [one-list-slots-request] calls(client.call) == k0 + 1 && arg(client.call, k0, 0) == c && len(arg(client.call, k0, 1)) == 1 &&
+//@     argc(client.call, k0, 1)[off(arg(client.call, k0, 1))] == 32
+//@   ensures [transport-failure-is-an-error] ret(client.call, k0, 1) != nil ==> (slots == nil && err == ret(client.call, k0, 1))
+
+//@ func (*client).ReadSlot(c, slot)
+//@   requires c != nil && cinv(c) && cfree(c)
+//@   modifies all
+//@   let k0 = old(calls(client.call))
+//@   ensures [one-read-slot-request-naming-the-slot] calls(client.call) == k0 + 1 && arg(client.call, k0, 0) == c && len(arg(client.call, k0, 1)) == 1 + len(slot) &&
+//@     argc(client.call, k0, 1)[off(arg(client.call, k0, 1))] == 33 && str(arg(client.call, k0, 1)[1:]) == slot
+//@   ensures [transport-failure-is-an-error] ret(client.call, k0, 1) != nil ==> (cert == nil && err == ret(client.call, k0, 1))
+
+//@ func (*client).AttestSlot(c, slot)
+//@   requires c != nil && cinv(c) && cfree(c)
+//@   modifies all
+//@   let k0 = old(calls(client.call))
+//@   ensures [one-attest-slot-request-naming-the-slot] calls(client.call) == k0 + 1 && arg(client.call, k0, 0) == c && len(arg(client.call, k0, 1)) == 1 + len(slot) &&
+//@     argc(client.call, k0, 1)[off(arg(client.call, k0, 1))] == 34 && str(arg(client.call, k0, 1)[1:]) == slot
+//@   ensures [transport-failure-is-an-error] ret(client.call, k0, 1) != nil ==> (cert == nil && err == ret(client.call, k0, 1))
